@@ -80,6 +80,9 @@ pub struct NodeCfg {
     pub validate_checksum: bool,
     #[serde(default)]
     pub http: bool,
+    /// issue JWTs that never expire (needed under the frozen clock: the JWT library validates `exp` against the real clock)
+    #[serde(default)]
+    pub jwt_never_expire: bool,
     #[serde(default = "default_workers")]
     pub rt_workers: usize,
 }
@@ -103,6 +106,7 @@ impl Default for NodeCfg {
             delete_oldest: false,
             validate_checksum: false,
             http: false,
+            jwt_never_expire: false,
             rt_workers: 2,
         }
     }
@@ -234,6 +238,9 @@ impl Node {
                 let http_addr = if cfg2.http {
                     let mut http = server_cfg.http.clone();
                     http.address = "127.0.0.1:0".to_string();
+                    if cfg2.jwt_never_expire {
+                        http.jwt.access_token_expiry = IggyExpiry::NeverExpire;
+                    }
                     Some(http_server::start(http, system.clone()).await)
                 } else {
                     None
@@ -347,6 +354,15 @@ impl Node {
             let mut ex = MaintainMessagesExecutor;
             ex.execute(&self.system, MaintainMessagesCommand::verif_new(clean, false))
                 .await;
+        })
+    }
+
+    /// One pass of the personal-access-token cleaner (what its timer triggers in the binary).
+    pub fn clean_tokens(&self) {
+        use server::channels::commands::clean_personal_access_tokens::{CleanPersonalAccessTokensCommand, CleanPersonalAccessTokensExecutor};
+        self.rt.block_on(async {
+            let mut ex = CleanPersonalAccessTokensExecutor;
+            ex.execute(&self.system, CleanPersonalAccessTokensCommand).await;
         })
     }
 
